@@ -121,7 +121,7 @@ pub fn run(case: &Sx, dir: &Path) -> Vec<Out> {
                 let kind = if lack && r.chance(1, 3) {
                     if r.chance(1, 2) { QKind::Lack } else { QKind::Nosuch }
                 } else {
-                    *r.pick(&[QKind::All, QKind::All, QKind::Count, QKind::Sorted])
+                    *r.pick(&[QKind::All, QKind::Star, QKind::Count, QKind::Sorted, QKind::Star])
                 };
                 ctl2.note(Role::Querier(n), "h:qstart", Some(format!("{} {}", inst, kind.name())));
                 let q = run_query(&rt, &db, kind, Duration::from_secs(30));
